@@ -17,6 +17,7 @@ macro_rules! byte (
 
 #[derive(Debug, Clone, PartialEq, Eq)]
 pub(super) enum ChunkedState {
+    SizeStart,
     Size,
     SizeLws,
     Extension,
@@ -38,6 +39,7 @@ impl ChunkedState {
     ) -> Poll<Result<ChunkedState, io::Error>> {
         use self::ChunkedState::*;
         match *self {
+            SizeStart => ChunkedState::read_size_start(body, size),
             Size => ChunkedState::read_size(body, size),
             SizeLws => ChunkedState::read_size_lws(body),
             Extension => ChunkedState::read_extension(body),
@@ -48,6 +50,21 @@ impl ChunkedState {
             EndCr => ChunkedState::read_end_cr(body),
             EndLf => ChunkedState::read_end_lf(body),
             End => Poll::Ready(Ok(ChunkedState::End)),
+        }
+    }
+
+    /// `chunk-size = 1*HEXDIG`: a chunk-size line must start with a hex digit.
+    fn read_size_start(
+        rdr: &mut BytesMut,
+        size: &mut u64,
+    ) -> Poll<Result<ChunkedState, io::Error>> {
+        match rdr.first() {
+            None => Poll::Pending,
+            Some(b) if b.is_ascii_hexdigit() => ChunkedState::read_size(rdr, size),
+            Some(_) => Poll::Ready(Err(io::Error::new(
+                io::ErrorKind::InvalidInput,
+                "Invalid chunk size line: Missing Size",
+            ))),
         }
     }
 
@@ -159,7 +176,7 @@ impl ChunkedState {
     }
     fn read_body_lf(rdr: &mut BytesMut) -> Poll<Result<ChunkedState, io::Error>> {
         match byte!(rdr) {
-            b'\n' => Poll::Ready(Ok(ChunkedState::Size)),
+            b'\n' => Poll::Ready(Ok(ChunkedState::SizeStart)),
             _ => Poll::Ready(Err(io::Error::new(
                 io::ErrorKind::InvalidInput,
                 "Invalid chunk body LF",
